@@ -6,22 +6,27 @@ from workers import Worker
 
 ID = "C01"
 LEVEL = "other"
-GEN = ["RxGen", "UnicodeGen"]
+GEN = ["RxGen", "UnicodeGen", "InlineGen", "UtilGen"]
 COQ = ["Props/C01.vo"]
 EXPLANATION = (
     "PARTIAL proof + isolated-worker oracle. Proved (coq/Props/C01.v): (1) every regular-expression operation of the model "
     "terminates (the engine is a structurally recursive total function; RxSpec.m_spec); (2) for the generic scanner loop "
     "shared by the block and the inline parser: if every handler either declines or returns a position beyond the cursor, "
-    "the loop terminates within (length - cursor) iterations and the cursor is strictly monotone (induction, any rule "
-    "table, any handlers); the fallback branches (rest of line / one character) always advance; (3) every regenerated "
-    "pattern is well-formed for the engine theorem. NOT proved: the per-handler progress facts and the nesting/recursion "
-    "bounds (need the full parser model). The oracle runs real conversions in a separate worker process (crash, hang and "
-    "RecursionError isolation) over generated documents, nesting pumps up to depth 400 and hostile code points, for "
-    "sampled configurations of renderer x escape x hard_wrap x plugin subset x directive style, in one long-lived "
-    "process so that cross-instance state shows too.")
+    "the loop terminates within (length - cursor) iterations and the cursor is strictly monotone; (3) every regenerated "
+    "rule pattern is well-formed and non-nullable; (4) INLINE PARSER: for the executable model of InlineParser (scanner "
+    "loop, the nine handlers, precedence_scan, the link helpers, recursive rendering of emphasis and link text; "
+    "coq/Model/Inline.v) instantiated with the regenerated patterns and rule order: every position a handler returns is at or "
+    "beyond the end of its match (C01_inline_cursor_advances) and the parse never runs out of fuel - it terminates for "
+    "every text, both hard_wrap settings and every reference table (C01_inline_parser_terminates, by induction on the text "
+    "length with nesting fuel 2n+3). The model is tied to the source by control skeletons with constants of its 17 "
+    "methods, 6 helpers and the state class, and by a token-tree correspondence run. NOT proved: the block and list "
+    "handlers, plugin rules, and the recursion depth of CPython itself. The oracle runs real conversions in a separate "
+    "worker process (crash, hang and RecursionError isolation) over generated documents, nesting pumps up to depth 400 and "
+    "hostile code points, for sampled configurations of renderer x escape x hard_wrap x plugin subset x directive style, "
+    "in one long-lived process so that cross-instance state shows too.")
 ASSUMPTIONS = ["CPython's recursion limit is 1000 in the worker (the library default environment)",
                "a conversion that needs more than the per-document wall limit counts as a hang"]
-TRUSTED = ["tools/worker.py, tools/workers.py"]
+TRUSTED = ["tools/worker.py, tools/workers.py", "tools/skeletons/ip_*.txt hp_*.txt ipstate_*.txt (control skeletons and constants of the modelled functions)"]
 TECHNIQUE = "Coq: termination/progress of the generic scanner loop and totality of the regex engine; the rest by isolated differential execution"
 
 P = gen_docs.ALL_PLUGINS
@@ -111,7 +116,8 @@ def check(w, cfg, doc, fails, limit):
 
 
 def correspondence(ctx):
-    return {"evaluations": 0, "disagreements": [], "note": "no executable parser model yet; see C10/C09 for the scanner and engine correspondence"}
+    import corr_inline
+    return corr_inline.run(ctx, ctx.n(4000, 60000))
 
 
 def oracle(ctx, extra):
